@@ -503,7 +503,9 @@ def framing_stream(ctx: Ctx, book: Book, pool: dict, reps: int) -> None:
                     ctx.disagreements.append(Disagreement('framing', {'family': fam, 'kind': kind, 'addpath': ap, 'data': hx(data)}, f'consumed {mc}', f'consumed {hx(data[: len(data) - len(rest)])}'))
                 elif x is not NLRI.INVALID:
                     kept = getattr(x, '_packed', None)
-                    if kept is not None and hx(bytes(kept)) != ms and not getattr(x, '_packed_stale', False):
+                    # BGP-LS-VPN keeps the RD apart (`route_d`) and gives it back in pack_nlri: compared through pack
+                    split_state = kind == 'type16Len16' and safi == 72
+                    if kept is not None and hx(bytes(kept)) != ms and not getattr(x, '_packed_stale', False) and not split_state:
                         ctx.disagreements.append(Disagreement('framing-stored', {'family': fam, 'kind': kind, 'data': hx(data)}, ms, hx(bytes(kept))))
                     try:
                         p = hx(bytes(x.pack_nlri(R.Sess.get(ap))))
@@ -721,6 +723,15 @@ def object_streams(ctx: Ctx, book: Book, cover: Cover, pool: dict, by_value: dic
         cls = component or type(a).__name__
         ctx.evaluations += 1
         ctx.count(f'attr:{src}')
+        if type(a).__name__ == 'NextHop' and len(bytes(getattr(a, '_packed', b'') or b'')) != 4:
+            # an IPv6 next hop is an object of the configuration: it travels inside MP_REACH_NLRI, never as
+            # attribute 3 (which is four bytes: RFC 4271 5.1.3)
+            ctx.count('attr:skipped:ipv6-next-hop-travels-in-mp-reach')
+            return
+        if type(a).__name__ == 'AS4Path':
+            # AS4_PATH only exists between a 2-octet speaker and us (RFC 6793 4.2.2): on a 4-octet session it is
+            # not sent and is dropped on receipt
+            asn4 = False
         cover.hit(cover.attr, cls, src)
         if component is None:
             for part in list(getattr(a, 'communities', None) or []) + list(getattr(a, 'sr_attrs', None) or []):
@@ -764,7 +775,7 @@ def object_streams(ctx: Ctx, book: Book, cover: Cover, pool: dict, by_value: dic
             do_route(r, 'text:corpus', {'cmd': c['cmd']})
     for f in sorted((common.VERIF / 'corpus' / 'C15').glob('nlri-*.json')):
         c = json.loads(f.read_text())
-        replay_nlri_bytes(ctx, book, cover, c, 'decode:corpus')
+        replay_nlri_bytes(ctx, book, cover, c, 'decode:corpus', pool)
     for f in sorted((common.VERIF / 'corpus' / 'C15').glob('attr-*.json')):
         c = json.loads(f.read_text())
         replay_attr_bytes(ctx, book, cover, c, 'decode:corpus')
@@ -891,7 +902,7 @@ def multi_nlri_stream(ctx: Ctx, book: Book, routes_by_family: dict, per_family: 
                 ctx.nontrivial(['multi', afi, safi, want])
 
 
-def replay_nlri_bytes(ctx: Ctx, book: Book, cover: Cover, c: dict, src: str) -> None:
+def replay_nlri_bytes(ctx: Ctx, book: Book, cover: Cover, c: dict, src: str, pool: dict | None = None) -> None:
     from exabgp.protocol.family import AFI, SAFI
 
     from harness import roundtriprig as R
@@ -917,6 +928,8 @@ def replay_nlri_bytes(ctx: Ctx, book: Book, cover: Cover, c: dict, src: str) -> 
         if fs2:
             f = fs2[0]
             book.add('roundtrip-law', cls, f.law, shape_of(x, f.law, f.detail, f.data or data), f.data or data, f.detail, {'stream': 'nlri-bytes', **c}, corpus=src.endswith('corpus'))
+        elif pool is not None and 'bytes' in facts2:
+            pool.setdefault((c['afi'], c['safi'], bool(c.get('addpath'))), []).append(facts2['bytes'])
 
 
 def replay_attr_bytes(ctx: Ctx, book: Book, cover: Cover, c: dict, src: str) -> None:
